@@ -56,10 +56,11 @@ class Chooser:
         return k
 
 
-def run_session(W, lb, batches, chooser, eager=True, default_comm=False, workers_call_map=False, master_body=None):
+def run_session(W, lb, batches, chooser, eager=True, default_comm=False, workers_call_map=False, master_body=None, key=None):
     """One pool; the master maps the given batches [(g, tasks)] one after the other on it (or runs
     master_body(pool) which may call pool.map any number of times), then close().
-    Every pool.map call of the master is recorded in out["calls"] as (function, tasks, returned) and
+    Every pool.map call of the master is recorded in out["calls"] as (function, tasks, returned) — with
+    key(.) applied to every task / returned item AT THAT MOMENT when a key function is given — and
     marked in the trace by ("R",).  Returns dict(rets, calls, trace, error, deadlock, cut)."""
     mp = mpipool_module()
     world = fake.World(W + 1, chooser, eager_sends=eager)
@@ -73,7 +74,10 @@ def run_session(W, lb, batches, chooser, eager=True, default_comm=False, workers
         def logged_map(function, tasks, callback=None):
             r = orig(function, tasks, callback)
             world.trace.append(("R",))
-            calls.append((function, list(tasks), r))
+            if key is None:
+                calls.append((function, list(tasks), r))
+            else:
+                calls.append((function, [key(t) for t in tasks], [None if x is None else key(x) for x in (r or [])]))
             return r
 
         pool.map = logged_map
@@ -157,22 +161,17 @@ def session_lit(W, lb, batches, out, rets=None):
     return "Sess %d %s [%s]" % (W, "true" if lb else "false", "; ".join(bl))
 
 
-def label_calls(calls, key):
-    """For sessions whose payloads are objects: number the functions 1,2,.. in order of first use, label the
-    tasks of each call 0..n-1 and express every returned item as task_fn(g, j) where j is the position of
-    the task it was computed from (matched by key); an unmatched or misplaced item shows up as a wrong label.
+def label_calls(calls):
+    """For sessions whose payloads are objects (run_session(key=...)): number the functions 1,2,.. in order of
+    first use, label the tasks of each call 0..n-1 and express every returned item as task_fn(g, j) where j is
+    the position of the task it was computed from (matched by key); an unmatched item shows up as None.
     Returns (batches, rets) for session_lit."""
     fids = {}
     batches, rets = [], []
-    for (fn, tasks, ret) in calls:
+    for (fn, keys, rkeys) in calls:
         g = fids.setdefault(id(fn), len(fids) + 1)
-        keys = [key(t) for t in tasks]
-        batches.append((g, list(range(len(tasks)))))
-        lab = []
-        for r in (ret or []):
-            k = key(r) if r is not None else None
-            lab.append(task_fn(g, keys.index(k)) if k in keys else None)
-        rets.append(lab)
+        batches.append((g, list(range(len(keys)))))
+        rets.append([task_fn(g, keys.index(k)) if k in keys else None for k in rkeys])
     return batches, rets
 
 
